@@ -8,6 +8,9 @@ CONSTANTS MaxItems = 3
  Budget = 1
  IdOffs <- IdOffs3
  Rules = {"assume", "implies_intr", "implies_elim", "substitution", "theorem", "sorry", "", "subproof", "verif_gap1"}
+ ArgKinds = {}
+ ArityOffs <- ArityOffs1
+ MaxAlias = 0
  Emit = TRUE
 INVARIANT RefSound
 INVARIANT RefGapFree
